@@ -450,7 +450,23 @@ func channelJoined(gs GoStart) bool {
 						okRecv = true
 					}
 				})
-				if okRecv {
+				// the collecting loop has no way out other than exhausting the collection
+				// (an early return would leave the remaining goroutines running)
+				exhaust := true
+				for _, b := range gs.In.Blocks {
+					if !l2.Contains(b) {
+						continue
+					}
+					if len(b.Succs) == 0 {
+						exhaust = false // return or panic inside the loop
+					}
+					for _, sc := range b.Succs {
+						if !l2.Contains(sc) && sc != l2.Done {
+							exhaust = false
+						}
+					}
+				}
+				if okRecv && exhaust {
 					return true
 				}
 			}
